@@ -119,9 +119,15 @@ static int allowed(int op, int h, int g) {
     if (op == DTOR && (borrowed[h] || inpool[h])) return 0;
     if (op == COPY && (h == g)) return 0;
     if ((op == DTOR || op == RELEASE) && alias_of[h] >= 0 && gone[alias_of[h]]) return 0;
+    /* a stale copy: the object it points to was destroyed through the other copy (which may have been reused since) */
+    if ((op == DTOR || op == RELEASE) && gone[h] && H[h].addr != NULL) return 0;
     return 1;
 }
 static void apply(int op, int h, int g) {
+    /* a handle that receives a new value is no longer the copy of anything */
+    if (op == CTOR || op == MAKE || op == POOLED || op == BORROW || op == CLONE || op == COPY) {
+        int k; for (k = 0; k < 2; k++) if (k != h && alias_of[k] == h) alias_of[k] = -1;
+    }
     switch (op) {
     case CTOR: OWN_Cls_ctor(7, &H[h]); borrowed[h] = 0; alias_of[h] = -1; gone[h] = 0; inpool[h] = 0; break;
     case MAKE: OWN_make(3, &H[h]); borrowed[h] = 0; alias_of[h] = -1; gone[h] = 0; inpool[h] = 0; break;
